@@ -87,12 +87,12 @@ def build(h, tier, wd, variant_defs=None):
     for path, is_lib in tus:
         t = open(path).read()
         rep = []
-        if is_lib and cuts:
-            t, hit = irtool.cut(t, cuts, rep); cut_hit |= hit
         if cut_all:
             # inline (linkonce_odr) definitions are removed from every TU, except where the replacement is defined via asm label
             t, hit = irtool.cut_linkonce(t, cut_all, rep) if hasattr(irtool, 'cut_linkonce') else irtool.cut(t, cut_all, rep)
             cut_hit |= hit
+        if is_lib and cuts:
+            t, hit = irtool.cut(t, cuts, rep); cut_hit |= hit
         p2 = os.path.join(wd, 'c_' + os.path.basename(path))
         open(p2, 'w').write(t); texts.append(p2)
     missing = [c for c in list(cuts) + list(cut_all) if ('@' + c if not c.startswith('@') else c) not in cut_hit]
